@@ -545,6 +545,19 @@ def eval_exact(t, env=None, prims=None):
             r = prims(t, env)
             if r is not None:
                 return r
+        if t[1] in ("any", "all", "len", "min", "max", "sum", "list", "tuple") and len(t) == 3:
+            v = eval_exact(t[2], env, prims)
+            if isinstance(v, tuple):
+                if t[1] in ("list", "tuple"):
+                    return v
+                if t[1] == "len":
+                    return Fraction(len(v))
+                if t[1] in ("any", "all"):
+                    return {"any": any, "all": all}[t[1]](v)
+                if v or t[1] == "sum":
+                    return {"min": min, "max": max, "sum": lambda z: sum(z, Fraction(0))}[t[1]](v)
+        if t[1] in ("min", "max") and len(t) > 3:
+            return {"min": min, "max": max}[t[1]](eval_exact(x, env, prims) for x in t[2:])
         raise NotEvaluable("call of %s" % t[1])
     if h in ("tuple", "list"):
         return tuple(eval_exact(x, env, prims) for x in t[1:])
@@ -1054,3 +1067,71 @@ def prop_unsat(c, max_atoms=14):
         if ev(c, val):
             return False
     return True
+
+
+def stateless_scan(repo, rep, fam, rule="R-STATELESS"):
+    """the functions of `fam` (and the helpers a refactoring split off from them) do not retain a caller's mutable object
+    between calls: a store to a class attribute / global whose value holds a parameter object by reference (not a copy or
+    a number derived from it) lets a later call compare against, or serve results for, an object the caller has since
+    changed.  Value-keyed memos (epoch.jde(), Epoch(epoch), float(x)) are not flagged."""
+    import ast as _ast
+    rep.rule(rule, "no class-attribute / global store retains a parameter object by reference (a memo keyed on a mutable argument serves stale results)")
+    n = 0
+    for mod, qual in fam:
+        try:
+            fn = repo.func(mod, qual)
+        except Exception:
+            continue
+        for f in with_new_helpers(repo, mod, fn):
+            n += 1
+            params = {a.arg for a in f.args.args + f.args.kwonlyargs} - {"self", "cls"}
+            objects = set()
+            for node in _ast.walk(f):
+                if isinstance(node, _ast.Call) and isinstance(node.func, _ast.Name) and node.func.id == "isinstance" and len(node.args) == 2 \
+                        and isinstance(node.args[0], _ast.Name) and node.args[0].id in params:
+                    names = {x.id for x in _ast.walk(node.args[1]) if isinstance(x, _ast.Name)}
+                    if names - {"int", "float", "str", "bool", "complex"}:
+                        objects.add(node.args[0].id)
+                if isinstance(node, _ast.Call) and isinstance(node.func, _ast.Attribute) and isinstance(node.func.value, _ast.Name) \
+                        and node.func.value.id in params:
+                    objects.add(node.func.value.id)
+            local_names = set(params)
+            for s_ in _ast.walk(f):
+                if isinstance(s_, _ast.Name) and isinstance(s_.ctx, _ast.Store):
+                    local_names.add(s_.id)
+            globs = set()
+            for node in _ast.walk(f):
+                if isinstance(node, (_ast.Global, _ast.Nonlocal)):
+                    globs.update(node.names)
+
+            def bare_params(v):
+                """parameter objects that v holds by reference: bare names, possibly inside tuple/list/dict displays"""
+                if isinstance(v, _ast.Name):
+                    return {v.id} & objects
+                if isinstance(v, (_ast.Tuple, _ast.List, _ast.Set)):
+                    return set().union(*[bare_params(e) for e in v.elts]) if v.elts else set()
+                if isinstance(v, _ast.Dict):
+                    return set().union(*[bare_params(e) for e in list(v.keys) + list(v.values) if e is not None]) if v.values else set()
+                if isinstance(v, _ast.IfExp):
+                    return bare_params(v.body) | bare_params(v.orelse)
+                return set()
+            for node in _ast.walk(f):
+                if not isinstance(node, (_ast.Assign, _ast.AugAssign, _ast.AnnAssign)) or getattr(node, "value", None) is None:
+                    continue
+                targets = node.targets if isinstance(node, _ast.Assign) else [node.target]
+                for tg in targets:
+                    base = tg
+                    while isinstance(base, (_ast.Attribute, _ast.Subscript)):
+                        base = base.value
+                    persistent = (isinstance(tg, _ast.Name) and tg.id in globs) or \
+                                 (isinstance(tg, (_ast.Attribute, _ast.Subscript)) and isinstance(base, _ast.Name)
+                                  and base.id not in local_names - globs and base.id != "self")
+                    if persistent:
+                        kept = bare_params(node.value)
+                        if kept:
+                            rep.violation(rule, "%s.%s" % (mod, qual), "state:" + norm_text(tg),
+                                          "`%s` keeps the caller's object `%s` by reference between calls: once the caller changes that object in place, "
+                                          "results cached for it are served for the new value" % (norm_text(tg), ", ".join(sorted(kept))),
+                                          construct="line %d" % node.lineno)
+    rep.ok(rule, "family", "%d functions: no persistent store retains a parameter object" % n)
+    return n
